@@ -65,6 +65,11 @@ type StreamSpec struct {
 	// (what iotest.DataErrReader, some files, pipes and decompressors do)
 	// instead of returning (0, io.EOF) on the following Read
 	EOFData bool `json:"eof_with_data,omitempty"`
+	// DupLen > 0 (materialised streams): bytes [DupAt, DupAt+DupLen) repeat
+	// the DupLen bytes before them - a healthy generator may well deliver the
+	// same sample twice; identical samples get identical test results
+	DupAt  int64 `json:"dup_at,omitempty"`
+	DupLen int   `json:"dup_len,omitempty"`
 }
 
 // ChunkSpec describes how many bytes each Read returns.
@@ -120,6 +125,10 @@ type RunnerSpec struct {
 	// SlowEvery > 0: every SlowEvery-th runner call takes SlowSec simulated seconds
 	SlowEvery int `json:"slow_every,omitempty"`
 	SlowSec   int `json:"slow_sec,omitempty"`
+	// Lockstep (race monitor only): the first batch of samples (one per
+	// worker) enters every item together: each runner call waits until all
+	// workers of the batch have arrived at that item. A pure delay.
+	Lockstep bool `json:"lockstep,omitempty"`
 }
 
 // RunConfig is one fully explicit simulated execution: together with Picks it
